@@ -24,7 +24,7 @@ package archiver
 
 //@ func ProcessBody
 //@   property C10
-//@   sweep idx slice div
+//@   sweep idx slice div assert
 //@   opaque
 //@   modifies models.URL::*
 
